@@ -163,7 +163,8 @@ pub mod oracle {
 
     /// a unit of glob text: (byte, escaped?) or a class body kept verbatim
     #[derive(Clone, Debug, PartialEq)]
-    enum Unit { Ch(u8, bool), Class(Vec<u8>) }
+    enum Unit { Ch(u8, bool), Class(Vec<u8>), Join }
+    // Join: zero-width seam left by brace expansion; stars on its two sides are two single stars, never "**"
 
     fn units(g: &[u8], o: Opts) -> Option<Vec<Unit>> {
         let mut out = vec![];
@@ -213,7 +214,7 @@ pub mod oracle {
                 if !o.ealt { branches.retain(|b| !b.is_empty()); }
                 if branches.is_empty() { return None; }          // `{}` / `{,}`: undocumented
                 let mut next = vec![];
-                for r in &results { for b in &branches { let mut x = r.clone(); x.extend(b.iter().cloned()); next.push(x); } }
+                for r in &results { for b in &branches { let mut x = r.clone(); x.push(Unit::Join); x.extend(b.iter().cloned()); x.push(Unit::Join); next.push(x); } }
                 results = next;
                 i = j + 1;
             } else if is_raw(&us[i], b'}') {
@@ -294,6 +295,7 @@ pub mod oracle {
                 Unit::Ch(b'*', false) => out.push(Item::AnyMany),
                 Unit::Ch(c, false) => out.push(Item::Byte(*c)),
                 Unit::Class(body) => out.push(class_set(body, o)?),
+                Unit::Join => {}
             }
             i += 1;
         }
